@@ -1,5 +1,6 @@
 import Wee.Model.Search
 import Wee.Proofs.TTLemmas
+import Wee.Proofs.BoundaryPoll
 import Wee.Props.C01
 import Wee.Props.C02Closed
 /-!
@@ -650,6 +651,12 @@ structure IterInv (K : Keys) (R : State → Prop) (root : State) (st : IterSt) :
   best : ∀ m, st.bestMv = some m → LegalIn root m
   events : ∀ ev line, Event.best ev line ∈ st.events → line ≠ [] ∧ LineLegal root line
 
+/-- the boundary read of the flag touches none of the fields the invariant speaks about -/
+theorem IterInv.boundaryPoll {K : Keys} {R : State → Prop} {root : State} {st : IterSt} (ctx : Ctx) (depth : Nat)
+    (h : IterInv K R root st) : IterInv K R root (boundaryPoll ctx depth st) :=
+  ⟨by rw [boundaryPoll_tt]; exact h.tt, by rw [boundaryPoll_bestMv]; exact h.best,
+   by rw [boundaryPoll_events]; exact h.events⟩
+
 section driver
 variable {G : Nat → State → Prop} (hG : Graded G) (D : Nat) (ctx : Ctx) (hcf : CollisionFree ctx.keys (upTo G D))
   (root : State) (hroot : G 0 root)
@@ -749,10 +756,12 @@ theorem iterLoop_inv (rootHash : UInt64) (workersOf : Nat → Nat) :
   | zero => intro depth st _ h; exact h
   | succ n ih =>
     intro depth st hd h
-    rw [iterLoop]
+    rw [iterLoop_succ]
     split
     · exact h
-    · exact ih _ _ (by omega) (iterStep_inv hG D ctx hcf root hroot _ _ _ (by omega) _ h)
+    · split
+      · exact h.boundaryPoll ctx depth
+      · exact ih _ _ (by omega) (iterStep_inv hG D ctx hcf root hroot _ _ _ (by omega) _ (h.boundaryPoll ctx depth))
 
 end driver
 /-! ## 8. `iterate` -/
@@ -857,10 +866,12 @@ theorem iterLoop_events_mono (ctx : Ctx) (root : State) (rootHash : UInt64) (wor
   | zero => intro depth st ev h; exact h
   | succ n ih =>
     intro depth st ev h
-    rw [iterLoop]
+    rw [iterLoop_succ]
     split
     · exact h
-    · exact ih _ _ ev (iterStep_events_mono _ _ _ _ _ _ ev h)
+    · split
+      · rw [boundaryPoll_events]; exact h
+      · exact ih _ _ ev (iterStep_events_mono _ _ _ _ _ _ ev (by rw [boundaryPoll_events]; exact h))
 
 /-- what the workers of the first iteration (`depth = 0`) return -/
 def firstWorkers (root : State) (rng0 : Rng.ChaCha8) (art : Artifact) (workersOf : Nat → Nat)
@@ -932,7 +943,7 @@ theorem first_iteration_reports_graded {G : Nat → State → Prop} (hG : Graded
     obtain ⟨ev, line, hmem⟩ := hstep
     refine ⟨ev, line, (best_mem_iterate ev line).2 ?_⟩
     unfold iterFinal
-    rw [hlim, iterLoop]
+    rw [hlim, iterLoop_succ, boundaryPoll_zero]
     have : (iterInit rng0 art).finished = false := rfl
     rw [this]
     simp only [Bool.false_eq_true, ↓reduceIte]
